@@ -1,4 +1,5 @@
 import GoLevel.Model.Table
+import GoLevel.Model.BlockIter
 import GoLevel.Driver.Key
 /-!
 Line-protocol handler for tables (`tbl …`).  The model takes checksum and filter policy as parameters;
@@ -20,6 +21,13 @@ tbl raw <verify:0|1> <file hex> <offset> <length>                               
 tbl block <restartInterval> <k1> <v1> …                                                 → <block hex>
 tbl snappy <hex>                          → ok:<decoded hex> | corrupt     (`snappy.Decode`, block format)
 tbl crc <hex>                                                                           → <masked crc32c>
+tbl biter <cmp> <restartInterval> <block hex> [s:<start|nil>:<limit|nil>:<inclLimit 0|1>] <move> …  → <res> …
+     the byte-level `blockIter` (`Model/BlockIter.lean`) over the block contents (as `readBlock` sees them); the
+     optional slice is the `util.Range` / `inclLimit` handed to `newBlockIter`; `<restartInterval>` is
+     informational (the reader takes the restart points from the block)
+     moves F L N P S:<key>                 → <returned 0|1>:<key>=<value> | <0|1>:.  (`.` = not Valid), then
+                                              `!corrupt` / `!released` / `!slice` while `Error()` is set
+     (every answer is `0:.!corrupt` when the block is too short to carry its restart count)
 ```
 `<filter>` is `none` or `bloom<bitsPerKey>`.
 -/
@@ -171,7 +179,56 @@ def runOp (t : TableR) (op : String) : Option String :=
     | none => pure "corrupt"
   | _ => none
 
+/-! ## `tbl biter`: walks of the byte-level block iterator -/
+
+def biterMove (s : String) : Option (Call Bytes) :=
+  match s.splitOn ":" with
+  | ["F"] => some .first
+  | ["L"] => some .last
+  | ["N"] => some .next
+  | ["P"] => some .prev
+  | ["S", k] => (fromHex k).map .seek
+  | _ => none
+
+def biterSlice (s : String) : Option (BRange × Bool) :=
+  match s.splitOn ":" with
+  | ["s", a, l, incl] => do
+    let a ← optKeyArg a; let l ← optKeyArg l; let incl ← parseNat? incl
+    pure (⟨a, l⟩, incl != 0)
+  | _ => none
+
+def showBiter (ok : Bool) (i : BIter) : String :=
+  let c := match i.cur with
+    | some (k, v) => toHexField k ++ "=" ++ toHexField v
+    | none => "."
+  let e := match i.err with
+    | none => ""
+    | some .corrupted => "!corrupt"
+    | some .released => "!released"
+    | some .badSlice => "!slice"
+  (if ok then "1:" else "0:") ++ c ++ e
+
+def biterWalk (cmp : Bytes → Bytes → Ordering) (b : BlockR) : BIter → List (Call Bytes) → List String
+  | _, [] => []
+  | i, cl :: cs => let r := BIter.step cmp b cl i; showBiter r.1 r.2 :: biterWalk cmp b r.2 cs
+
+def handleBiter (c : UCmp) (blk : Bytes) (rest : List String) : Option String := do
+  let (slice, moves) ← match rest with
+    | t :: ms => if t.startsWith "s:" then (biterSlice t).map fun x => (some x, ms) else some (none, rest)
+    | [] => some (none, [])
+  let calls ← moves.mapM biterMove
+  match Block.read blk with
+  | none => pure (" ".intercalate (calls.map fun _ => "0:.!corrupt"))
+  | some b =>
+    let it := match slice with
+      | none => newBlockIter c.cmp b none false
+      | some (r, incl) => newBlockIter c.cmp b (some r) incl
+    pure (" ".intercalate (biterWalk c.cmp b it calls))
+
 def handleTbl : List String → Option String
+  | "biter" :: c :: ri :: blk :: rest => do
+    let c ← cmpById c; let _ ← parseNat? ri; let blk ← fromHex blk
+    handleBiter c blk rest
   | "write" :: bs :: ri :: f :: lg :: c :: kvs => do
     let bs ← parseNat? bs; let ri ← parseNat? ri; let f ← filterById f; let lg ← parseNat? lg
     let c ← cmpById c; let kvs ← parseKVs kvs
